@@ -27,8 +27,8 @@ theorem run_invariant (cfg : Cfg σ) {P : St σ → Prop}
   | cons op ops ih => simpa [run] using ih _ (hstep s op hs)
 
 theorem WF_build (cfg : Cfg σ) (s : St σ) : WF cfg (build cfg s) := by
-  have h := (getWriter_spec cfg { s with writer := none, tst := cfg.trig.reinit s.tst s.now } (Or.inl rfl)).1
-  exact Or.inr ⟨_, h⟩
+  have h := (getWriter_spec cfg { s with writer := none, tst := cfg.trig.reinit s.tst s.now, opened := false } (Or.inl rfl)).1
+  exact ⟨getWriter_opened cfg _ (Or.inr rfl), Or.inr ⟨_, h⟩⟩
 
 theorem WF_init (cfg : Cfg σ) (d : Disk) (t0 : σ) (now : Nat) : WF cfg (init cfg d t0 now) := WF_build cfg _
 
@@ -39,8 +39,8 @@ theorem append_wf (cfg : Cfg σ) (s : St σ) (r : Rec) (fault : Nat → Bool) (h
     WF cfg (append cfg s r fault).2 ∧ ∃ L, (append cfg s r fault).1.consult = some (L, L) := by
   cases hpre : cfg.trig.pre with
   | true =>
-    obtain ⟨hc, _, _, hno, herr, hyes⟩ := append_pre_spec cfg s r fault hwf hpre _ _ (append cfg s r fault).1 (append cfg s r fault).2 rfl rfl rfl
-    refine ⟨?_, _, hc⟩
+    obtain ⟨hc, _, _, hop, hno, herr, hyes⟩ := append_pre_spec cfg s r fault hwf hpre _ _ (append cfg s r fault).1 (append cfg s r fault).2 rfl rfl rfl
+    refine ⟨⟨hop, ?_⟩, _, hc⟩
     cases hans : (cfg.trig.fire s.tst (openView cfg s).length s.now).1 with
     | no => exact Or.inr ⟨_, (hno hans).2.2.1⟩
     | err => exact Or.inr ⟨_, (herr hans).2.2.1⟩
@@ -50,8 +50,8 @@ theorem append_wf (cfg : Cfg σ) (s : St σ) (r : Rec) (fault : Nat → Bool) (h
       · exact Or.inr ⟨_, ho⟩
       · exact Or.inl hw
   | false =>
-    obtain ⟨hc, _, _, hno, herr, hyes⟩ := append_post_spec cfg s r fault hwf hpre _ _ (append cfg s r fault).1 (append cfg s r fault).2 rfl rfl rfl
-    refine ⟨?_, _, hc⟩
+    obtain ⟨hc, _, _, hop, hno, herr, hyes⟩ := append_post_spec cfg s r fault hwf hpre _ _ (append cfg s r fault).1 (append cfg s r fault).2 rfl rfl rfl
+    refine ⟨⟨hop, ?_⟩, _, hc⟩
     cases hans : (cfg.trig.fire s.tst (openView cfg s ++ encBytes r).length s.now).1 with
     | no => exact Or.inr ⟨_, (hno hans).2.2.1⟩
     | err => exact Or.inr ⟨_, (herr hans).2.2.1⟩
